@@ -18,6 +18,11 @@ EXPLANATION = (
     "remove_provider removes at the position of the matching provider, drops it from `provided` exactly once iff it is the local node's, and deletes the "
     "key only when its list became empty. providers()/provided() read those same collections.")
 ASSUMPTIONS = ["std HashMap/HashSet/SmallVec semantics (HashSet::insert keeps an existing equal element)"]
+TECHNIQUE = ("All patterns are evaluated on a normalised view of the MIR facts (vrules/lib_kad.canon): parameters by position, every "
+             "single-definition local expanded to its initialiser, closure captures by index, trivial crate-local helpers (accessors, one-comparison "
+             "predicates, one-line constructors) replaced by their bodies, private fields resolved by their type, comparisons normalised over operand "
+             "order / mirrored operators / method-call form / `!`, guard sets closed under bool hoisting. Behaviour-preserving refactorings that must stay "
+             "silent are archived in /verif/neutral/kad (01-12 and x1-author-combinators.diff).")
 SELFTEST = [
     {"mutation": "seeded C41: drop `self.provided.remove(p)` in the in-place update branch", "caught_by": "provided/in-place update of a local record: remove(old) then insert(new)"},
     {"mutation": "put: `>=` -> `>` for max_value_bytes", "caught_by": "put/value size strictly below max_value_bytes"},
@@ -29,7 +34,21 @@ SELFTEST = [
 ]
 
 MS = r"record::store::memory::MemoryStore as record::store::RecordStore>::"
-LOCAL = r"^std::cmp::impls::(?:eq|ne)\(libp2p_kad::kbucket::key::Key::preimage\(self\.local_key\), (.*)\.provider\)$|^std::cmp::impls::(?:eq|ne)\((.*)\.provider, libp2p_kad::kbucket::key::Key::preimage\(self\.local_key\)\)$"
+
+
+class F:
+    pass
+
+
+def resolve(prog):
+    ms = r"record::store::memory::MemoryStore$"
+    F.local_key = lk.fld(prog, ms, r"^kbucket::key::Key<")
+    F.config = lk.fld(prog, ms, r"MemoryStoreConfig$")
+    F.records = lk.fld(prog, ms, r"^std::collections::HashMap<record::Key, record::Record>$")
+    F.providers = lk.fld(prog, ms, r"^std::collections::HashMap<record::Key, smallvec::SmallVec<")
+    F.provided = lk.fld(prog, ms, r"^std::collections::HashSet<")
+    F.pre = lk.fld(prog, r"kbucket::key::Key$", r"^T$")
+    F.LOCAL = r"(?:self\.%s\.%s|libp2p_kad::kbucket::key::Key::preimage\(self\.%s\))" % (F.local_key, F.pre, F.local_key)
 
 
 def local_edges(b, want):
@@ -39,47 +58,63 @@ def local_edges(b, want):
         info = b.switch_info(bi)
         if not info:
             continue
-        m = re.match(LOCAL, render(info[0]))
-        if not m:
+        c = lk.as_cmp(info[0])
+        if not c or c[0] not in ("Eq", "Ne"):
             continue
-        neg = render(info[0]).startswith("std::cmp::impls::ne(")
-        w = want if not neg else ("false" if want == "true" else "true")
+        x, y = render(c[1]), render(c[2])
+        subj = None
+        for u, v in ((x, y), (y, x)):
+            if re.match("^" + F.LOCAL + "$", u) and v.endswith(".provider"):
+                subj = v[:-len(".provider")]
+        if subj is None:
+            continue
         for t, ls in info[1].items():
-            if ls == {w}:
-                out[(bi, t)] = m.group(1) or m.group(2)
+            if len(ls) != 1:
+                continue
+            truth = (list(ls)[0] == "true") == (c[0] == "Eq")
+            if ("true" if truth else "false") == want:
+                out[(bi, t)] = subj
     return out
 
 
 def check(ctx):
-    prog = ctx.prog
+    prog = lk.canon(ctx)
+    resolve(prog)
     check_put(ctx, prog)
     check_add(ctx, prog)
     check_remove(ctx, prog)
     check_who(ctx, prog)
 
 
+def entry_key(b, s):
+    """(map, key) of the HashMap::entry call an Occupied/VacantEntry operand derives from"""
+    for c in mir.calls_in(b.site_expr(s)[2][0], r"^std::collections::HashMap::entry$"):
+        return render(c[2][0]), render(c[2][1])
+    return None, None
+
+
 def check_put(ctx, prog):
     b = ctx.body(K, MS + r"put$")
     W = lk.where(b)
-    rets = b.return_blocks()
     occ = b.call_sites(r"hash_map::OccupiedEntry::insert$")
     vac = b.call_sites(r"hash_map::VacantEntry::insert$")
     ctx.floor("put", "entry inserts", occ + vac, 2)
     ctx.ob("put", "floor:one replace, one fresh insert", len(occ) == 1 and len(vac) == 1, W, nontrivial=False, msg="%d %d" % (len(occ), len(vac)))
-    VL, MV = r"^std::vec::Vec::len\(r\.value\)$", r"^self\.config\.max_value_bytes$"
-    RL, MR = r"^std::collections::HashMap::len\(self\.records\)$", r"^self\.config\.max_records$"
+    VL, MV = r"^std::vec::Vec::len\(#2\.value\)$", r"^self\.%s\.max_value_bytes$" % F.config
+    RL, MR = r"^std::collections::HashMap::len\(self\.%s\)$" % F.records, r"^self\.%s\.max_records$" % F.config
+    ENTRY = r"^discr\(std::collections::HashMap::entry\(self\.%s, " % F.records
     for s in occ + vac:
-        lib.limit_guard(ctx, "put", "value size strictly below max_value_bytes", s, VL, MV, "r.value.len() < max_value_bytes on every path to the insertion")
+        lk.limit(ctx, "put", "value size strictly below max_value_bytes", s, VL, MV, "r.value.len() < max_value_bytes on every path to the insertion")
         e = b.site_expr(s)
-        ctx.ob("put", "stores the given record", render(e[2][-1]) == "r", s.loc(), render(e[2][-1]))
-        ctx.ob("put", "under the record's own key", re.match(r"^std::collections::HashMap::entry\(self\.records, libp2p_kad::<record::Key as std::clone::Clone>::clone\(r\.key\)\)@(Vacant|Occupied)\.0$", render(b.init_expr(e[2][0][1])) if e[2][0][0] == "local" else render(e[2][0])) is not None, s.loc(), render(e[2][0])[:160])
+        ctx.ob("put", "stores the given record", render(e[2][-1]) == "#2", s.loc(), render(e[2][-1]))
+        m, k = entry_key(b, s)
+        ctx.ob("put", "under the record's own key", m == "self.%s" % F.records and k in ("libp2p_kad::<record::Key as std::clone::Clone>::clone(#2.key)", "#2.key"), s.loc(), "%s[%s]" % (m, k))
     for s in vac:
-        lib.limit_guard(ctx, "put", "new key only below max_records", s, RL, MR, "records.len() < max_records on every path to VacantEntry::insert")
-        ctx.guarded("put", "fresh insert only for a vacant key", s, lambda c, r, l: l == "Vacant" and r.startswith("discr(std::collections::HashMap::entry(self.records, "), "entry is Vacant")
+        lk.limit(ctx, "put", "new key only below max_records", s, RL, MR, "records.len() < max_records on every path to VacantEntry::insert")
+        ctx.guarded("put", "fresh insert only for a vacant key", s, lambda c, r, l: l == "Vacant" and re.match(ENTRY, r) is not None, "entry is Vacant")
     for s in occ:
-        ctx.guarded("put", "replace only for an occupied key", s, lambda c, r, l: l == "Occupied" and r.startswith("discr(std::collections::HashMap::entry(self.records, "), "entry is Occupied")
-        weak = lib.cmp_guard(b, RL, MR, None)
-        dom = [x for x in weak if b.dominates(x[0], s.bb)]
+        ctx.guarded("put", "replace only for an occupied key", s, lambda c, r, l: l == "Occupied" and re.match(ENTRY, r) is not None, "entry is Occupied")
+        dom = [x for x in lk.all_rel_edges(b, RL, MR) if b.dominates(x[0], s.bb)]
         ctx.ob("put", "replacing an existing key is not subject to max_records", not dom, s.loc(), "put replaces even when the store is full")
     res = {}
     for s in lk.ret_sites(b):
@@ -94,58 +129,68 @@ def check_put(ctx, prog):
         for s in res.get(k, []):
             got = cnt(b, [0], [s.bb], occ + vac)
             ctx.ob("put", "Err(%s) <=> nothing stored" % k, got == (0, 0), s.loc(), str(got))
-            e = lib.at_limit_edges(b, VL, MV) if k == "ValueTooLarge" else lib.at_limit_edges(b, RL, MR)
-            ctx.ob("put", "Err(%s) only at its limit" % k, bool(e) and b.must_pass_edges(s.bb, e), s.loc(), "")
-    for fn, want in (("get", "std::option::Option::map(std::collections::HashMap::get(self.records, k), fn:std::borrow::Cow::Borrowed)"),
-                     ("records", "std::iter::Iterator::map(std::collections::HashMap::values(self.records), fn:std::borrow::Cow::Borrowed)"),
-                     ("providers", None), ("provided", "std::iter::Iterator::map(std::collections::HashSet::iter(self.provided), fn:std::borrow::Cow::Borrowed)")):
+            e = lk.rel_edges(b, VL, MV, ">=") if k == "ValueTooLarge" else lk.rel_edges(b, RL, MR, ">=")
+            ctx.ob("put", "Err(%s) only at its limit" % k, lk.passes(b, s.bb, e), s.loc(), "")
+    for fn, want in (("get", r"^std::option::Option::map\(std::collections::HashMap::get\(self\.%s, #2\), fn:std::borrow::Cow::Borrowed\)$" % F.records),
+                     ("records", r"^std::iter::Iterator::map\(std::collections::HashMap::values\(self\.%s\), fn:std::borrow::Cow::Borrowed\)$" % F.records),
+                     ("providers", r"^std::option::Option::map_or_else\(std::collections::HashMap::get\(self\.%s, #2\), fn:std::vec::Vec::new, closure:" % F.providers),
+                     ("provided", r"^std::iter::Iterator::map\(std::collections::HashSet::iter\(self\.%s\), fn:std::borrow::Cow::Borrowed\)$" % F.provided)):
         f = ctx.body(K, MS + fn + "$")
         rs = [R(f, s) for s in lk.ret_sites(f)]
-        if want is None:
-            ok = len(rs) == 1 and rs[0].startswith("std::option::Option::map_or_else(std::collections::HashMap::get(self.providers, key), fn:std::vec::Vec::new, closure:")
-        else:
-            ok = rs == [want]
-        ctx.ob("put", "%s() reads the collection that the mutators write" % fn, ok, lk.where(f), str(rs)[:200])
+        ctx.ob("put", "%s() reads the collection that the mutators write" % fn, len(rs) == 1 and re.match(want, rs[0]) is not None, lk.where(f), str(rs)[:200])
     rm = ctx.body(K, MS + r"remove$")
     cs = [R(rm, s) for s in rm.call_sites()]
-    ctx.ob("put", "remove() deletes the key from records", "std::collections::HashMap::remove(self.records, k)" in cs, lk.where(rm), str(cs))
+    ctx.ob("put", "remove() deletes the key from records", "std::collections::HashMap::remove(self.%s, #2)" % F.records in cs, lk.where(rm), str(cs))
 
 
 def check_add(ctx, prog):
     b = ctx.body(K, MS + r"add_provider$")
     W = lk.where(b)
     rets = b.return_blocks()
+    PROVIDERS, PROVIDED = "self.%s" % F.providers, r"^self\.%s$" % F.provided
     oiw = b.call_sites(r"hash_map::Entry::(or_insert_with|or_default|or_insert)$")
     ctx.floor("providers", "entry(..).or_insert_with", oiw, 1, exact=True)
-    vac = tg(lib.switch_edges_on(b, r"^discr\(std::collections::HashMap::entry\(self\.providers, libp2p_kad::<record::Key as std::clone::Clone>::clone\(record\.key\)\)\)$", {"Vacant"}))
+    ent = [s for s in b.call_sites(r"^std::collections::HashMap::entry$") if render(b.site_expr(s)[2][0]) == PROVIDERS]
+    ctx.floor("providers", "providers.entry(key)", ent, 1, exact=True)
+    vac = set()
+    for s in ent:
+        vac |= lib.switch_edges_on_site(b, s, {"Vacant"})
+        k = render(b.site_expr(s)[2][1])
+        ctx.ob("providers", "the entry is that of the record's own key", k in ("libp2p_kad::<record::Key as std::clone::Clone>::clone(#2.key)", "#2.key"), s.loc(), k)
+    vac = tg(vac)
     ctx.ob("providers", "floor:vacant-key edge", len(vac) == 1, W, nontrivial=False, msg=str(vac))
-    KL, MK = r"^std::collections::HashMap::len\(self\.providers\)$", r"^self\.config\.max_provided_keys$"
-    good, weak = lib.strict_limit_edges(b, KL, MK, True)
+    KL, MK = r"^std::collections::HashMap::len\(self\.%s\)$" % F.providers, r"^self\.%s\.max_provided_keys$" % F.config
+    good = lk.rel_edges(b, KL, MK, "<") | lk.rel_edges(b, KL, MK, "!=")
     for s in oiw:
-        ok = bool(good) and bool(vac) and b.must_pass_edges(s.bb, good, start=vac[0])
+        ok = bool(vac) and lk.passes(b, s.bb, good, start=vac[0])
         ctx.ob("providers", "a new key is created only below max_provided_keys", ok, s.loc(), "every path from the Vacant edge to or_insert_with passes the not-at-limit edge (== with unit increments)")
-    lens = [s for s in b.call_sites(r"^std::collections::HashMap::len$") if render(b.site_expr(s)[2][0]) == "self.providers"]
-    ent = [s for s in b.call_sites(r"^std::collections::HashMap::entry$")]
-    ctx.ob("providers", "key count is read before the entry is taken", len(lens) == 1 and len(ent) == 1 and b.dominates(lens[0].bb, ent[0].bb), W, "")
-    at = lib.at_limit_edges(b, KL, MK)
+    lens = [s for s in b.call_sites(r"^std::collections::HashMap::len$") if render(b.site_expr(s)[2][0]) == PROVIDERS]
+    ctx.ob("providers", "key count is read before the entry is taken", len(lens) >= 1 and len(ent) == 1 and all(b.dominates(l.bb, ent[0].bb) for l in lens), W, "")
+    at = lk.rel_edges(b, KL, MK, ">=")
     for s in [x for x in lk.ret_sites(b) if "MaxProvidedKeys" in R(b, x)]:
-        ctx.ob("providers", "Err(MaxProvidedKeys) only for a new key at the limit", bool(at) and b.must_pass_edges(s.bb, at) and bool(vac) and b.must_pass_nodes([0], [s.bb], vac), s.loc(), "")
+        ctx.ob("providers", "Err(MaxProvidedKeys) only for a new key at the limit", lk.passes(b, s.bb, at) and bool(vac) and b.must_pass_nodes([0], [s.bb], vac), s.loc(), "")
     # list operations
     push = b.call_sites(r"smallvec::SmallVec::push$")
     ctx.floor("providers", "push", push, 1, exact=True)
-    over = [s for s in b.stmt_sites(lambda st: st["k"] == "assign" and st["p"].get("pr") and all(pr["k"] == "deref" for pr in st["p"]["pr"]) and b.names.get(st["p"]["l"]) == "p")]
+    heads = [s for s in b.call_sites(r"slice::IterMut as std::iter::Iterator>::next$")]
+    ctx.floor("providers", "scan over the existing providers", heads, 1, exact=True)
+    ELEM = (R(b, heads[0]) + "@Some.0") if heads else "?"
+    over = []
+    for bi in sorted(b.live):
+        for si, st in enumerate(b.blocks[bi]["stmts"]):
+            if st["k"] == "assign" and st["p"].get("pr") and all(pr["k"] == "deref" for pr in st["p"]["pr"]) and render(b.place_expr(st["p"])) == ELEM:
+                over.append(mir.Site(b, bi, si))
     ctx.floor("providers", "in-place overwrite `*p = record`", over, 1, exact=True)
-    same = lib.switch_edges_on(b, r"^<libp2p_core::PeerId as std::cmp::PartialEq>::eq\(p\.provider, record\.provider\)$|^<libp2p_core::PeerId as std::cmp::PartialEq>::eq\(record\.provider, p\.provider\)$", {"true"})
-    heads = b.call_sites(r"slice::IterMut as std::iter::Iterator>::next$")
+    same = lk.rel_edges(b, "^" + re.escape(ELEM) + r"\.provider$", r"^#2\.provider$", "==")
     exhausted = set()
     for h in heads:
         exhausted |= lib.switch_edges_on_site(b, h, {"None"})
-    PL, MP = r"^smallvec::SmallVec::len\(std::collections::hash_map::Entry::or_insert_with\(", r"^self\.config\.max_providers_per_key$"
+    LIST = r"std::collections::hash_map::Entry::(or_insert_with|or_default|or_insert)\("
+    PL, MP = r"^smallvec::SmallVec::len\(" + LIST, r"^self\.%s\.max_providers_per_key$" % F.config
     for s in over:
-        ctx.ob("providers", "overwrite only the entry of the same provider", bool(same) and b.must_pass_edges(s.bb, same), s.loc(), "p.provider == record.provider")
-        ctx.ob("providers", "overwrite stores the new record", R(b, s) == "record", s.loc(), R(b, s))
-        src = render(b.init_expr(s.stmt["p"]["l"]))
-        ctx.ob("providers", "overwritten element belongs to this key's list", src == "<std::slice::IterMut as std::iter::Iterator>::next(iter)@Some.0", s.loc(), src)
+        ctx.ob("providers", "overwrite only the entry of the same provider", lk.passes(b, s.bb, same), s.loc(), "p.provider == record.provider")
+        ctx.ob("providers", "overwrite stores the new record", R(b, s) == "#2", s.loc(), R(b, s))
+        ctx.ob("providers", "overwritten element belongs to this key's list", bool(oiw) and R(b, oiw[0]) in ELEM, s.loc(), ELEM[:200])
     st_ = tg(same)
     if st_:
         got = cnt(b, st_, rets, push), cnt(b, st_, rets, over)
@@ -153,66 +198,72 @@ def check_add(ctx, prog):
         ok_ret = {R(b, s) for s in lk.ret_sites(b) if s.bb in b.reachable(st_, stop_nodes=lib.bbs(heads))}
         ctx.ob("providers", "in-place update returns Ok", ok_ret == {"std::result::Result::Ok{0: tuple{}}"}, W, str(ok_ret))
     for s in push:
-        lib.limit_guard(ctx, "providers", "push only below max_providers_per_key", s, PL, MP, "providers.len() != max_providers_per_key (unit increments)", unit_increment=True)
-        ctx.ob("providers", "push only when no record of this provider exists", bool(exhausted) and b.must_pass_edges(s.bb, exhausted), s.loc(), "the scan over existing providers ended without a match")
+        lk.limit(ctx, "providers", "push only below max_providers_per_key", s, PL, MP, "providers.len() != max_providers_per_key (unit increments)", unit_increment=True)
+        ctx.ob("providers", "push only when no record of this provider exists", lk.passes(b, s.bb, exhausted), s.loc(), "the scan over existing providers ended without a match")
         e = b.site_expr(s)
-        ctx.ob("providers", "pushes the given record into this key's list", render(e[2][1]) == "record" and render(e[2][0]).startswith("std::collections::hash_map::Entry::or_insert_with("), s.loc(), R(b, s)[:160])
-    full = tg(lib.at_limit_edges(b, PL, MP))
+        ctx.ob("providers", "pushes the given record into this key's list", render(e[2][1]) == "#2" and bool(oiw) and render(e[2][0]) == R(b, oiw[0]), s.loc(), R(b, s)[:160])
+    full = tg(lk.rel_edges(b, PL, MP, ">="))
+    pmut = lk.recv_calls(b, r"HashSet::(insert|remove|replace)$", PROVIDED)
     if full:
-        got = cnt(b, full, rets, push + over + lk.recv_calls(b, r"HashSet::(insert|remove|replace)$", r"^self\.provided$"))
+        got = cnt(b, full, rets, push + over + pmut)
         ctx.ob("providers", "a full list ignores a new provider", got == (0, 0), W, str(got))
     # ---- provided
-    pins = lk.recv_calls(b, r"^std::collections::HashSet::insert$", r"^self\.provided$")
-    prem = lk.recv_calls(b, r"^std::collections::HashSet::remove$", r"^self\.provided$")
-    prep = lk.recv_calls(b, r"^std::collections::HashSet::replace$", r"^self\.provided$")
+    pins = lk.recv_calls(b, r"^std::collections::HashSet::insert$", PROVIDED)
+    prem = lk.recv_calls(b, r"^std::collections::HashSet::remove$", PROVIDED)
+    prep = lk.recv_calls(b, r"^std::collections::HashSet::replace$", PROVIDED)
     ctx.floor("provided", "add_provider: provided mutations", pins + prem + prep, 2)
     loc_t = local_edges(b, "true")
     loc_f = local_edges(b, "false")
-    ctx.ob("provided", "floor:local-provider tests", len(loc_t) >= 2 and len(loc_f) >= 2, W, nontrivial=False, msg="%s %s" % (loc_t, loc_f))
+    ctx.ob("provided", "floor:local-provider tests", len(loc_t) >= 1 and len(loc_f) >= 1, W, nontrivial=False, msg="%s %s" % (loc_t, loc_f))
+    ed_t = lk.hoisted(b, {e for e, x in loc_t.items() if x == "#2"})
+    ed_f = lk.hoisted(b, {e for e, x in loc_f.items() if x == "#2"})
     for s in pins + prem + prep:
-        ed = {e for e, x in loc_t.items() if x == "record"}
-        ctx.ob("provided", "mutated only for the local node's records", bool(ed) and b.must_pass_edges(s.bb, ed), s.loc(), "local_key.preimage() == record.provider on every path to %s" % R(b, s)[:80])
+        ctx.ob("provided", "mutated only for the local node's records", lk.passes(b, s.bb, ed_t), s.loc(), "local_key.preimage() == record.provider on every path to %s" % R(b, s)[:80])
     for s in pins + prep:
         a = render(b.site_expr(s)[2][1])
-        ctx.ob("provided", "the indexed record is the stored record", a == "libp2p_kad::<record::ProviderRecord as std::clone::Clone>::clone(record)", s.loc(), a)
-    # in-place arm
-    inpl_t = [t for (x, t), r in loc_t.items() if st_ and x in b.reachable(st_, stop_nodes=lib.bbs(heads))]
-    inpl_f = [t for (x, t), r in loc_f.items() if st_ and x in b.reachable(st_, stop_nodes=lib.bbs(heads))]
-    ctx.ob("provided", "floor:in-place local test", len(inpl_t) == 1 and len(inpl_f) == 1, W, nontrivial=False, msg="%s %s" % (inpl_t, inpl_f))
-    if inpl_t:
-        r_, i_, p_ = cnt(b, inpl_t, rets, prem), cnt(b, inpl_t, rets, pins), cnt(b, inpl_t, rets, prep)
+        ctx.ob("provided", "the indexed record is the stored record", a == "libp2p_kad::<record::ProviderRecord as std::clone::Clone>::clone(#2)", s.loc(), a)
+    # in-place arm: the region after the same-provider edge up to the return
+    inpl = b.reachable(st_, stop_nodes=lib.bbs(heads)) if st_ else set()
+    in_mut = [s for s in pins + prem + prep if s.bb in inpl]
+    in_t = [t for (x, t) in ed_t if x in inpl]
+    in_f = [t for (x, t) in ed_f if x in inpl]
+    ctx.ob("provided", "floor:in-place local test", len(in_t) == 1 and len(in_f) == 1, W, nontrivial=False, msg="%s %s" % (in_t, in_f))
+    if in_t:
+        r_, i_, p_ = cnt(b, in_t, rets, prem), cnt(b, in_t, rets, pins), cnt(b, in_t, rets, prep)
         two = r_ == (1, 1) and i_ == (1, 1) and p_ == (0, 0)
         one = r_ == (0, 0) and i_ == (0, 0) and p_ == (1, 1)
         order = True
         if two:
-            rb = [s.bb for s in prem if s.bb in b.reachable(inpl_t)]
-            ib = [s.bb for s in pins if s.bb in b.reachable(inpl_t, stop_nodes=lib.bbs(heads))]
+            rb = [s.bb for s in prem if s.bb in inpl]
+            ib = [s.bb for s in pins if s.bb in inpl]
             order = all(b.dominates(r, i) and r != i for r in rb for i in ib)
             for s in prem:
-                if s.bb in b.reachable(inpl_t):
+                if s.bb in inpl:
                     a = render(b.site_expr(s)[2][1])
-                    ctx.ob("provided", "in-place update removes the old element", a == "p", s.loc(), a)
+                    ctx.ob("provided", "in-place update removes the old element", a == ELEM, s.loc(), a[:160])
         ctx.ob("provided", "in-place update of a local record: remove(old) then insert(new)", (two and order) or one, W,
                "HashSet::insert keeps an existing equal element, so the stale record must be removed first (or HashSet::replace used): remove %s, insert %s, replace %s, remove-before-insert %s" % (r_, i_, p_, order))
         ob = [s.bb for s in over]
-        mb = [s.bb for s in prem + pins + prep if s.bb in b.reachable(inpl_t, stop_nodes=lib.bbs(heads))]
+        mb = [s.bb for s in in_mut]
         ctx.ob("provided", "provided is updated before the old element is overwritten", bool(ob) and all(b.dominates(m, o) or m not in b.reachable(b.succ[o]) for m in mb for o in ob), W, "remove(p) reads the old record")
-    if inpl_f:
-        got = cnt(b, inpl_f, rets, prem + pins + prep)
+    if in_f:
+        got = cnt(b, in_f, rets, prem + pins + prep)
         ctx.ob("provided", "in-place update of a foreign record leaves provided alone", got == (0, 0), W, str(got))
-    # push arm
-    push_t = [t for (x, t), r in loc_t.items() if t not in inpl_t]
-    push_f = [t for (x, t), r in loc_f.items() if t not in inpl_f]
+    # push arm: after the scan is exhausted
+    pa = b.reachable(tg(exhausted)) if exhausted else set()
+    push_t = [t for (x, t) in ed_t if x in pa and x not in inpl]
+    push_f = [t for (x, t) in ed_f if x in pa and x not in inpl]
+    ctx.ob("provided", "floor:push-path local test", len(push_t) == 1 and len(push_f) == 1, W, nontrivial=False, msg="%s %s" % (push_t, push_f))
     if push_t and push_f and push:
         got = cnt(b, push_t, rets, pins + prep), cnt(b, push_t, rets, prem), cnt(b, push_t, rets, push)
         ctx.ob("provided", "first local record: indexed exactly once and pushed", got == ((1, 1), (0, 0), (1, 1)), W, "insert %s remove %s push %s" % got)
         got = cnt(b, push_f, rets, pins + prem + prep), cnt(b, push_f, rets, push)
         ctx.ob("provided", "first foreign record: pushed, provided untouched", got == ((0, 0), (1, 1)), W, "provided mutations %s push %s" % got)
         for s in push:
-            tests = [x for (x, t) in list(loc_t) + list(loc_f) if t in push_t + push_f]
+            tests = [x for (x, t) in ed_t | ed_f if t in push_t + push_f]
             ctx.ob("provided", "every push is preceded by the local-provider test", bool(tests) and b.must_pass_nodes([0], [s.bb], tests), s.loc(), "")
     eq = ctx.body(K, r"record::ProviderRecord as std::cmp::PartialEq>::eq$")
-    flds = sorted(set(re.findall(r"self\.(\w+)", " ".join(R(eq, s) for s in eq.call_sites()))))
+    flds = sorted(set(re.findall(r"self\.(\w+)", " ".join(R(eq, s) for s in eq.call_sites()) + " " + " ".join(render(eq.switch_info(bi)[0]) for bi in eq.live if eq.switch_info(bi)))))
     hs = ctx.body(K, r"record::ProviderRecord as std::hash::Hash>::hash$")
     hf = sorted(set(re.findall(r"self\.(\w+)", " ".join(R(hs, s) for s in hs.call_sites()))))
     ctx.ob("provided", "ProviderRecord identity (Eq and Hash) is (key, provider)", flds == ["key", "provider"] and hf == ["key", "provider"], lk.where(eq), "eq over %s, hash over %s" % (flds, hf))
@@ -222,27 +273,32 @@ def check_remove(ctx, prog):
     b = ctx.body(K, MS + r"remove_provider$")
     W = lk.where(b)
     rets = b.return_blocks()
+    PROVIDED = r"^self\.%s$" % F.provided
     rm = b.call_sites(r"smallvec::SmallVec::remove$")
     ctx.floor("provided", "remove_provider: SmallVec::remove", rm, 1, exact=True)
-    prem = lk.recv_calls(b, r"^std::collections::HashSet::remove$", r"^self\.provided$")
+    prem = lk.recv_calls(b, r"^std::collections::HashSet::remove$", PROVIDED)
     ctx.floor("provided", "remove_provider: provided.remove", prem, 1)
-    other = lk.recv_calls(b, r"^std::collections::HashSet::(insert|replace|clear|retain)$", r"^self\.provided$")
+    other = lk.recv_calls(b, r"^std::collections::HashSet::(insert|replace|clear|retain)$", PROVIDED)
     ctx.ob("provided", "remove_provider never adds to provided", not other, W, str([R(b, s)[:60] for s in other]))
+    LISTRX = r"^std::collections::hash_map::OccupiedEntry::(get_mut|into_mut)\(std::collections::HashMap::entry\(self\.%s, (libp2p_kad::<record::Key as std::clone::Clone>::clone\(#2\)|#2)\)@Occupied\.0\)$" % F.providers
     for s in rm:
         e = b.site_expr(s)
-        idx = render(e[2][1])
-        ctx.ob("providers", "remove_provider removes at the position of the matching provider", idx.startswith("<std::slice::Iter as std::iter::Iterator>::position(") and idx.endswith("[provider])@Some.0"), s.loc(), idx[-120:])
-        ctx.ob("providers", "remove_provider works on the list of the given key", "std::collections::hash_map::OccupiedEntry::get_mut(e)" == render(e[2][0]) and render(b.init_expr(lib.local_by_name(b, "e"))) == "std::collections::HashMap::entry(self.providers, libp2p_kad::<record::Key as std::clone::Clone>::clone(key))@Occupied.0", s.loc(), render(e[2][0]))
-    cl = ctx.body(K, MS + r"remove_provider::\{closure#0\}$")
-    rs = [R(cl, s) for s in lk.ret_sites(cl)]
-    ctx.ob("providers", "remove_provider matches on the provider id", rs in (["std::cmp::impls::eq(p.provider, ^provider)"], ["std::cmp::impls::eq(^provider, p.provider)"]), lk.where(cl), str(rs))
+        idx = e[2][1]
+        pos = [c for c in mir.calls_in(idx, r"Iterator>?::position$")]
+        ok = len(pos) == 1 and render(idx).endswith("@Some.0") and [render(x) for c in mir.walk(pos[0]) if c[0] == "closure" for x in c[2]] == ["#3"]
+        ctx.ob("providers", "remove_provider removes at the position of the matching provider", ok, s.loc(), render(idx)[-160:])
+        ctx.ob("providers", "remove_provider works on the list of the given key", re.match(LISTRX, render(e[2][0])) is not None, s.loc(), render(e[2][0])[:200])
+    cls = [c for c in prog.bodies(K) if c.kind == "closure" and lk.root_fn(prog, c) is b]
+    es = [c.site_expr(s) for c in cls for s in lk.ret_sites(c)]
+    ok = len(es) == 1 and lk.cmp_norm(es[0], r"^#2\.provider$", r"^\^0$") == "Eq"
+    ctx.ob("providers", "remove_provider matches on the provider id", ok, W, str([render(e) for e in es]))
     loc_t, loc_f = local_edges(b, "true"), local_edges(b, "false")
-    ctx.ob("provided", "floor:remove_provider local test", len(loc_t) == 1 and len(loc_f) == 1, W, nontrivial=False, msg=str(loc_t))
+    ctx.ob("provided", "floor:remove_provider local test", len(loc_t) == 1 and len(loc_f) == 1, W, nontrivial=False, msg=str(loc_t)[:200])
     for s in prem:
-        ok = bool(loc_t) and b.must_pass_edges(s.bb, set(loc_t)) and all(x.startswith("smallvec::SmallVec::remove(") for x in loc_t.values())
+        ok = lk.passes(b, s.bb, set(loc_t)) and all(x.startswith("smallvec::SmallVec::remove(") for x in loc_t.values())
         ctx.ob("provided", "remove_provider: provided shrinks only for the local node's record", ok, s.loc(), "removed.provider == local_key.preimage()")
         a = render(b.site_expr(s)[2][1])
-        ctx.ob("provided", "remove_provider: drops the record that was removed from the list", a.startswith("smallvec::SmallVec::remove(std::collections::hash_map::OccupiedEntry::get_mut(e), "), s.loc(), a[:100])
+        ctx.ob("provided", "remove_provider: drops the record that was removed from the list", bool(rm) and a == R(b, rm[0]), s.loc(), a[:100])
     if loc_t:
         got = cnt(b, tg(loc_t), rets, prem)
         ctx.ob("provided", "removing the local node's record drops it from provided exactly once", got == (1, 1), W, str(got))
@@ -254,25 +310,49 @@ def check_remove(ctx, prog):
         ctx.ob("provided", "every removal from a list is followed by the local-provider test", bool(tests) and b.must_pass_nodes(b.succ[s.bb], rets, tests), s.loc(), "")
     er = b.call_sites(r"hash_map::OccupiedEntry::remove(_entry)?$")
     for s in er:
-        ctx.guarded("providers", "a key is deleted only when its provider list is empty", s, lambda c, r, l: l == "true" and r == "smallvec::SmallVec::is_empty(std::collections::hash_map::OccupiedEntry::get_mut(e))", "providers.is_empty()")
+        ctx.guarded("providers", "a key is deleted only when its provider list is empty", s, lambda c, r, l: (l == "true" and r.startswith("smallvec::SmallVec::is_empty(std::collections::hash_map::OccupiedEntry::"))
+                    or (l == "true" and re.match(r"^Eq\(smallvec::SmallVec::len\(.*\), 0\)$", r) is not None), "providers.is_empty()")
     ctx.floor("providers", "empty-list cleanup", er, 1)
 
 
 def check_who(ctx, prog):
     MUT = r"(HashMap|HashSet)::(insert|remove|remove_entry|entry|retain|clear|drain|extend|replace|take|get_mut|values_mut|iter_mut|get_or_insert_with|extract_if)$"
-    who = {"records": set(), "providers": set(), "provided": set()}
+    who = {F.records: set(), F.providers: set(), F.provided: set()}
     for b in prog.bodies(K):
         if "record::store::memory" not in b.npath:
             continue
+        root = lk.root_fn(prog, b).npath.split("::")[-1]
         for s in b.call_sites(MUT):
             r = render(b.site_expr(s)[2][0])
             for f in who:
                 if r == "self." + f:
-                    who[f].add(b.npath.split("::")[-1] + ":" + strip_generics(b.call_name(s.term)).split("::")[-1])
-    ctx.ob("who", "records written only by put (entry), remove, retain", who["records"] == {"put:entry", "remove:remove", "retain:retain"}, msg=str(sorted(who["records"])))
-    ctx.ob("who", "providers written only by add_provider / remove_provider (entry)", who["providers"] == {"add_provider:entry", "remove_provider:entry"}, msg=str(sorted(who["providers"])))
-    ctx.ob("who", "provided written only by add_provider / remove_provider", who["provided"] == {"add_provider:insert", "add_provider:remove", "remove_provider:remove"} or who["provided"] == {"add_provider:insert", "add_provider:replace", "remove_provider:remove"}, msg=str(sorted(who["provided"])))
+                    who[f].add(root + ":" + strip_generics(b.call_name(s.term)).split("::")[-1])
+    ctx.ob("who", "records written only by put (entry), remove, retain", who[F.records] == {"put:entry", "remove:remove", "retain:retain"}, msg=str(sorted(who[F.records])))
+    ctx.ob("who", "providers written only by add_provider / remove_provider (entry)", who[F.providers] == {"add_provider:entry", "remove_provider:entry"}, msg=str(sorted(who[F.providers])))
+    ctx.ob("who", "provided written only by add_provider / remove_provider", who[F.provided] in ({"add_provider:insert", "add_provider:remove", "remove_provider:remove"}, {"add_provider:replace", "remove_provider:remove"}, {"add_provider:insert", "add_provider:replace", "remove_provider:remove"}), msg=str(sorted(who[F.provided])))
     wc = ctx.body(K, r"record::store::memory::MemoryStore::with_config$")
-    ag = [R(wc, s) for s in wc.agg_sites(r"memory::MemoryStore$")]
-    ok = len(ag) == 1 and "local_key: libp2p_kad::<kbucket::key::Key as std::convert::From>::from(local_id)" in ag[0] and ag[0].count("as std::default::Default>::default()") == 3 and "config: config" in ag[0]
-    ctx.ob("who", "a new store is empty, keyed by the given local id, with the given limits", ok, lk.where(wc), str(ag)[:300])
+    ags = wc.agg_sites(r"memory::MemoryStore$")
+    f = {k: render(v) for k, v in wc.site_expr(ags[0])[4]} if len(ags) == 1 else {}
+    ok = (f.get(F.local_key) == "libp2p_kad::<kbucket::key::Key as std::convert::From>::from(#1)" and f.get(F.config) == "#2"
+          and all("as std::default::Default>::default()" in f.get(x, "") or "::new()" in f.get(x, "") for x in (F.records, F.providers, F.provided)))
+    ctx.ob("who", "a new store is empty, keyed by the given local id, with the given limits", ok, lk.where(wc), str(f)[:300])
+
+# thorough-tier sensitivity self-test (vrules/selftest.py): one-edit variants of the source that break the property
+MUTANTS = [
+    {"name": 'put: value limit >', "file": 'protocols/kad/src/record/store/memory.rs',
+     "find": 'if r.value.len() >= self.config.max_value_bytes {',
+     "replace": 'if r.value.len() > self.config.max_value_bytes {',
+     "expect": '^put/value size strictly below', "why": 'value of exactly max_value_bytes accepted'},
+    {"name": 'put: record limit >', "file": 'protocols/kad/src/record/store/memory.rs',
+     "find": 'if num_records >= self.config.max_records {',
+     "replace": 'if num_records > self.config.max_records {',
+     "expect": '^put/new key only below max_records', "why": 'max_records + 1'},
+    {"name": 'remove_provider: provided not updated', "file": 'protocols/kad/src/record/store/memory.rs',
+     "find": '                if &p.provider == self.local_key.preimage() {\n                    self.provided.remove(&p);\n                }\n',
+     "replace": '',
+     "expect": '^provided/', "why": 'provided() lists a removed record'},
+    {"name": 'add_provider: per-key limit dropped', "file": 'protocols/kad/src/record/store/memory.rs',
+     "find": '        if providers.len() == self.config.max_providers_per_key {\n            return Ok(());\n        }\n',
+     "replace": '',
+     "expect": '^providers/push only below max_providers_per_key', "why": 'unbounded provider list'},
+]
